@@ -227,6 +227,13 @@ means "no filter" (`c20_x_parse_shape`).  So the keyword literal parser must not
 parse (real mapping, e.g. a text field) accepted: it has no error return at all. -/
 theorem c20_x_keyword_literals_never_rejected : keywordLiteralErrors = [] := by decide
 
+/-- the query text is never rewritten on its way: `GetAPISearchRequest` has no statement but the `return`, and the
+store request's `Query` is `sr.Q` itself - line breaks (which end `#` comments) and the bytes of quoted names reach
+the stores and the fetch-stage parse as the client wrote them.  In the token model a comment is white space: the
+lexer skips it and the following line break sets `SpaceSkipped` (`Tok.space`). -/
+theorem c20_x_query_text_unchanged :
+    apiSearchRequestPre = [] ∧ apiSearchRequestQuery = ["util.ByteToStringUnsafe(sr.Q)"] := by decide
+
 /-- `tryParseFieldsFilter`: parse with a nil mapping, first `*parser.PipeFields`, `AllowList = !Except` -/
 theorem c20_x_parse_shape :
     parseFilterSteps = ["q, err := parser.ParseSeqQL(query, nil)", "if err != nil { return FetchFieldsFilter{} }",
